@@ -61,7 +61,7 @@ def plural_pick(s: str, p: str, n: Any):
 
 def classify(msg: str) -> str:
     """Mechanism id: does the message contain a % that is not part of a well-formed %(name)s placeholder?"""
-    if re.search(r"%\{\{\s*\w+\s*\}\}", msg):
+    if re.search(r"%\{\{\s*[\w-]+\s*\}\}", msg):
         return "percent-directly-before-placeholder"  # tag bodies only
     rest = re.sub(r"%\(\w+\)s", "", msg)
     if "%" in rest:
@@ -79,7 +79,7 @@ def judge(ctx: core.Ctx, case: dict[str, Any]) -> None:
     data: dict[str, Any] = {"m": msg, "pl": case.get("plural"), "cnt": V.dec(case["count"]) if "count" in case else None, "ctxv": case.get("context")}
     if case.get("outer"):
         # render data named like the message variables: the value given with the filter / tag is the one that is interpolated, nil included
-        data.update(you="OUTER-YOU", n="OUTER-N")
+        data.update({"you": "OUTER-YOU", "n": "OUTER-N", "user-name": "OUTER-UN"})
     count = data["cnt"]
     chosen = msg
     if k == "tag":
@@ -110,12 +110,12 @@ def judge(ctx: core.Ctx, case: dict[str, Any]) -> None:
         if "count" in case:
             allvars.setdefault("count", count)
         # only {{ name }} placeholders are substituted; literal text (even text that looks like %(name)s) is left alone
-        outer = {"you": "OUTER-YOU", "n": "OUTER-N"} if case.get("outer") else {}
+        outer = {"you": "OUTER-YOU", "n": "OUTER-N", "user-name": "OUTER-UN"} if case.get("outer") else {}
         # a placeholder names a variable of the block's scope: the tag's own arguments first (nil included), then whatever the name means outside
         # "the tag also collapses whitespace runs": the message text is stripped and every whitespace run that holds a line break becomes
         # one space (documented behaviour of the tag); what a variable's own value contains is left alone
         chosen_n = re.sub(r"\s*\n\s*", " ", chosen.strip())
-        exp = re.sub(r"\{\{\s*(\w+)\s*\}\}", lambda m2: _txt(allvars[m2.group(1)] if m2.group(1) in allvars else outer.get(m2.group(1), "")), chosen_n)
+        exp = re.sub(r"\{\{\s*([\w-]+)\s*\}\}", lambda m2: _txt(allvars[m2.group(1)] if m2.group(1) in allvars else outer.get(m2.group(1), "")), chosen_n)
         o = drv.parse_and_render(e, src, data, use_async=case.get("async", False))
         norm = lambda s: s  # noqa: E731 - compared exactly
     else:
@@ -184,7 +184,7 @@ def judge(ctx: core.Ctx, case: dict[str, Any]) -> None:
 
 
 TOKENS = ["Hello", " ", "%", "%%", "%s", "%d", "%(you)s", "%(n)s", "%(count)s", "(", ")", "\n  ", "<b>", "{", "100%", "%(", ")s", "é"]
-TAG_TOKENS = ["Hello", " ", "%", "%%", "%s", "%(you)s", "(", ")", "\n  ", "<b>", "100%", "{{ you }}", "{{ n }}", "é", "  ", "\n\n", " \r\n \n\t"]
+TAG_TOKENS = ["Hello", " ", "%", "%%", "%s", "%(you)s", "(", ")", "\n  ", "<b>", "100%", "{{ you }}", "{{ n }}", "é", "  ", "\n\n", " \r\n \n\t", "{{ user-name }}"]
 COUNTS: list[Any] = [-1, 0, 1, 2, 5, "2", 1.0, None]
 
 
@@ -230,6 +230,12 @@ def cases(ctx: core.Ctx):
                 c["nil_literal"] = idx % 4 == 0
             if "{{ n }}" in body and idx % 2:
                 vs["n"] = rng.choice([1, "x"])
+            if "{{ user-name }}" in body:
+                # identifiers may hold hyphens: as a tag argument, or (every third time) left to the render context
+                if idx % 3:
+                    vs["user-name"] = ["Ann", "%s", 7][idx % 3]
+                else:
+                    c["outer"] = True
             if vs:
                 c["vars"] = vs
             if idx % 3 == 0:
